@@ -54,6 +54,53 @@ def cur(t):
     return {"source": 1.0 + 0.5 * t, "drain": -1.0 - 0.5 * t}
 
 
+def run_config(tdgl, zoo, config, outmode, k):
+    dev = zoo.device({"hole_terminals": "G2", "four_terminals": "G4"}.get(config, "G1"), memo=False, lam=(0.8 if config == "screening" else 2.0),
+                     terminals=(config in ("hole_terminals", "callable_currents", "four_terminals")))
+    dt = 2.0**-5
+    o = dict(solve_time=6 * dt, dt_init=dt, dt_max=dt, adaptive=False, save_every=2, progress_interval=10**9)
+    kw = dict(applied_vector_potential=0.5)
+    if config == "screening":
+        o.update(include_screening=True, screening_tolerance=1e-3)
+    elif config == "adaptive":
+        o.update(adaptive=True, dt_init=0.3, dt_max=1.0, adaptive_window=2, adaptive_time_step_multiplier=0.5, solve_time=2.0)
+        kw = dict(applied_vector_potential=1.6)
+    elif config == "tdep":
+        kw = dict(applied_vector_potential=tdgl.Parameter(tramp, time_dependent=True))
+    elif config == "callable_currents":
+        kw["terminal_currents"] = cur
+    elif config == "four_terminals":
+        # non-representable decimals on four terminals: any order dependence of a sum shows in the last bit
+        dt = 2.0**-7
+        o.update(solve_time=6 * dt, dt_init=dt, dt_max=dt)
+        import numpy as np
+
+        # numpy scalars (as produced by any current sweep): builtin sum() is only compensated for exact Python floats
+        vals = np.array([0.26, 0.58, -0.10, -0.74])
+        kw["terminal_currents"] = dict(zip(("w", "e", "n", "s"), vals))
+    elif config == "hole_terminals":
+        dt = 2.0**-7
+        o.update(solve_time=6 * dt, dt_init=dt, dt_max=dt)
+        kw["terminal_currents"] = {"source": 0.4, "drain": -0.4}
+    if outmode == "temp":
+        sol = tdgl.solve(dev, tdgl.SolverOptions(**o), **kw)
+        # memory-only: digest what the solution exposes
+        import hashlib as hl
+        import numpy as np
+
+        h = hl.sha256()
+        for nm in ("psi", "mu", "supercurrent", "normal_current", "induced_vector_potential"):
+            h.update(np.ascontiguousarray(getattr(sol.tdgl_data, nm)).tobytes())
+        h.update(np.ascontiguousarray(sol.dynamics.dt).tobytes())
+        h.update(np.ascontiguousarray(dev.mesh.sites).tobytes())
+        h.update(np.ascontiguousarray(dev.mesh.areas).tobytes())
+        return "mem:" + h.hexdigest()
+    else:
+        path = os.path.abspath(f"explicit_{k}.h5") if outmode == "explicit" else f"rel/dir/out_{k}.h5"
+        sol = tdgl.solve(dev, tdgl.SolverOptions(output_file=path, **o), **kw)
+        return "file:" + digest_file(sol.path, dev.mesh)
+
+
 def main():
     config, outmode, threads = sys.argv[1], sys.argv[2], [int(x) for x in sys.argv[3].split(",")]
     sys.path.insert(0, os.environ["VERIF_REPO"])
@@ -67,52 +114,20 @@ def main():
     from mc import zoo
 
     res = {}
+    prior = os.environ.get("C09_PRIOR")
+    if prior:
+        # this process has a history: another configuration ran here first (its result is discarded)
+        numba.set_num_threads(2)
+        os.makedirs("prior", exist_ok=True)
+        cwd = os.getcwd()
+        os.chdir("prior")
+        try:
+            run_config(tdgl, zoo, prior, "relative", 2)
+        finally:
+            os.chdir(cwd)
     for k in threads:
         numba.set_num_threads(k)
-        dev = zoo.device({"hole_terminals": "G2", "four_terminals": "G4"}.get(config, "G1"), memo=False, lam=(0.8 if config == "screening" else 2.0),
-                         terminals=(config in ("hole_terminals", "callable_currents", "four_terminals")))
-        dt = 2.0**-5
-        o = dict(solve_time=6 * dt, dt_init=dt, dt_max=dt, adaptive=False, save_every=2, progress_interval=10**9)
-        kw = dict(applied_vector_potential=0.5)
-        if config == "screening":
-            o.update(include_screening=True, screening_tolerance=1e-3)
-        elif config == "adaptive":
-            o.update(adaptive=True, dt_init=0.3, dt_max=1.0, adaptive_window=2, adaptive_time_step_multiplier=0.5, solve_time=2.0)
-            kw = dict(applied_vector_potential=1.6)
-        elif config == "tdep":
-            kw = dict(applied_vector_potential=tdgl.Parameter(tramp, time_dependent=True))
-        elif config == "callable_currents":
-            kw["terminal_currents"] = cur
-        elif config == "four_terminals":
-            # non-representable decimals on four terminals: any order dependence of a sum shows in the last bit
-            dt = 2.0**-7
-            o.update(solve_time=6 * dt, dt_init=dt, dt_max=dt)
-            import numpy as np
-
-            # numpy scalars (as produced by any current sweep): builtin sum() is only compensated for exact Python floats
-            vals = np.array([0.26, 0.58, -0.10, -0.74])
-            kw["terminal_currents"] = dict(zip(("w", "e", "n", "s"), vals))
-        elif config == "hole_terminals":
-            dt = 2.0**-7
-            o.update(solve_time=6 * dt, dt_init=dt, dt_max=dt)
-            kw["terminal_currents"] = {"source": 0.4, "drain": -0.4}
-        if outmode == "temp":
-            sol = tdgl.solve(dev, tdgl.SolverOptions(**o), **kw)
-            # memory-only: digest what the solution exposes
-            import hashlib as hl
-            import numpy as np
-
-            h = hl.sha256()
-            for nm in ("psi", "mu", "supercurrent", "normal_current", "induced_vector_potential"):
-                h.update(np.ascontiguousarray(getattr(sol.tdgl_data, nm)).tobytes())
-            h.update(np.ascontiguousarray(sol.dynamics.dt).tobytes())
-            h.update(np.ascontiguousarray(dev.mesh.sites).tobytes())
-            h.update(np.ascontiguousarray(dev.mesh.areas).tobytes())
-            res[str(k)] = "mem:" + h.hexdigest()
-        else:
-            path = os.path.abspath(f"explicit_{k}.h5") if outmode == "explicit" else f"rel/dir/out_{k}.h5"
-            sol = tdgl.solve(dev, tdgl.SolverOptions(output_file=path, **o), **kw)
-            res[str(k)] = "file:" + digest_file(sol.path, dev.mesh)
+        res[str(k)] = run_config(tdgl, zoo, config, outmode, k)
     print("C09DIGEST " + json.dumps(res))
 
 
